@@ -44,3 +44,30 @@ Lemma compressed_notexist_follows_source st1 st2 o outs :
 Proof.
   intros H1 H2. unfold retrieve2. destruct (lookup [kK] st1); [|congruence]. rewrite H2. reflexivity.
 Qed.
+
+(* ---- the error branches (read faults, Model.C12 store_comp_g / outs_steps_f) ---- *)
+
+(* does the error branch of storeCompressed remove the temporary tarball before it returns? *)
+Fixpoint removes_tmp (b : list errstmt) : bool :=
+  match b with
+  | [] => false
+  | ERemoveAll p :: r => path_eqb (loc p) [kT] || removes_tmp r
+  | EReturn :: _ => false
+  | EWarn :: r => removes_tmp r
+  end.
+
+Definition returns (b : list errstmt) : bool :=
+  existsb (fun e => match e with EReturn => true | _ => false end) b.
+
+(* the model's faulted compressed store does with the temporary tarball what the source's error
+   branch does (seeded mutation m3 drops the removal: this lemma then fails) *)
+Lemma comp_fault_follows_source order st outs src f :
+  store_steps_f true order st outs src f
+  = store_comp_g (removes_tmp compressed_error_branch) order st outs src f.
+Proof. reflexivity. Qed.
+
+(* storeFile does not return (nor remove anything) when RecursiveLink fails: the loop over the
+   outputs goes on and Store renames - which is what outs_steps_f / store_plain_f do *)
+Lemma plain_fault_follows_source :
+  returns plain_link_error_branch = false /\ removes_tmp plain_link_error_branch = false.
+Proof. split; reflexivity. Qed.
